@@ -14,6 +14,7 @@ int g_recv_written, g_msg_complete;  /* Received line handed to mess first; mess
 int g_write_failed, g_read_failed, g_alarm, g_triggered;
 int g_unlink_intd_failed, g_unlink_mess_failed, g_trunc_intd, g_trunc_mess, g_cleanup_started;
 int g_exit_code = -1;
+int g_in_sigalrm;
 int g_prefix_puts;
 unsigned g_datelen;
 
@@ -90,6 +91,7 @@ int link(const char *a, const char *b)
 }
 int unlink(const char *p)
 {
+  V_ASSERT(!g_in_sigalrm, "C01,C02: the 24 h timeout handler changes nothing in the queue: leftovers are collected by the daemon after 36 h, and a message that is already published stays in S4");
   V_ASSERT(!g_todo, "C01: nothing is removed once the message is published");
   if (p == pidfn) { V_ASSERT(g_mess, "C02: the pid file is removed only after mess/<id> was linked"); if (ND_BOOL()) { V_HAVOC_ERRNO(); return -1; } g_pid = 0; return 0; }
   if (p == g_fn_intd && p == intdfn) {
@@ -105,6 +107,7 @@ int unlink(const char *p)
 }
 int ftruncate(int fd, off_t len)
 {
+  V_ASSERT(!g_in_sigalrm, "C01,C02: the 24 h timeout handler changes nothing in the queue: leftovers are collected by the daemon after 36 h, and a message that is already published stays in S4");
   g_cleanup_started = 1;
   V_ASSERT(!g_todo, "C01: nothing is truncated once the message is published");
   if (fd == INTDFD) g_trunc_intd = 1; else if (fd == MESSFD) g_trunc_mess = 1;
@@ -177,6 +180,7 @@ ssize_t substdio_get(substdio *s, char *buf, size_t len)
 void _exit(int e)
 {
   g_exit_code = e;
+  if (g_in_sigalrm) { V_ASSERT(e == 52, "C01: the timeout is reported with exit code 52"); V_ASSUME(0); }
   V_ASSERT(e != 0, "C01: success is reported only by returning from main after publication");
   V_ASSERT(!g_todo, "C01: a failure code is returned only if the message was not published");
   V_ASSERT((e == 91) == (g_env == E_BAD), "C01: a malformed envelope (wrong record letter) is refused with exit code 91");
@@ -199,7 +203,7 @@ void harness(void)
   g_dirty_mess = g_dirty_intd = g_synced_mess = g_synced_intd = g_recv_written = g_msg_complete = 0;
   g_write_failed = g_read_failed = g_alarm = g_triggered = 0;
   g_unlink_intd_failed = g_unlink_mess_failed = g_trunc_intd = g_trunc_mess = g_cleanup_started = 0; g_prefix_puts = 0;
-  g_fn_mess = g_fn_todo = g_fn_intd = 0; g_exit_code = -1;
+  g_fn_mess = g_fn_todo = g_fn_intd = 0; g_exit_code = -1; g_in_sigalrm = 0;
   g_datelen = ND_UINT(); V_ASSUME(g_datelen <= 64);
   flagmademess = 0; flagmadeintd = 0;   /* initial values of qmail-queue.c (DFCC makes statics nondeterministic) */
   r = main();
@@ -211,8 +215,10 @@ void harness(void)
 
 void h_sigalrm(void)
 {
-  g_todo = 0; g_alarm = 86400; g_cleanup_started = 0;
-  g_mess = ND_BOOL(); g_intd = ND_BOOL(); flagmademess = g_mess; flagmadeintd = g_intd;
+  /* the timer may fire at any instant, also between link(intd,todo) and exit: the flags are then still set */
+  g_todo = ND_BOOL(); g_alarm = 86400; g_cleanup_started = 0; g_in_sigalrm = 1;
+  g_mess = ND_BOOL(); g_intd = ND_BOOL(); if (g_todo) { g_mess = 1; g_intd = 1; } flagmademess = g_mess; flagmadeintd = g_intd;
+  intdfn = g_fn_intd = "i"; messfn = g_fn_mess = "m"; intdfd = INTDFD; messfd = MESSFD;
   g_env = E_SENDER; g_read_failed = g_write_failed = 0;
   g_exit_code = -1;
   sigalrm();
